@@ -47,13 +47,17 @@ def equivalent(a: Any, b: Any, ctx: Optional[Ctx], env: Optional[Dict[str, Any]]
             ta, tb = zeval_top(a, ctx), zeval_top(b, ctx)
         except Undefined:
             return "undefined", None
+        if ta[1].eq(tb[1]) and (ta[0] != "eq" or ta[2].eq(tb[2])):
+            return "same", None
         if ta[0] == "eq":
-            dom = ta[3] + tb[3] + powr_axioms(ta[1], ta[2], tb[1], tb[2])
+            dom = ta[3] + tb[3]
+            ax = powr_axioms(ta[1], ta[2], tb[1], tb[2])
             cond = z3.Xor(ta[1] == ta[2], tb[1] == tb[2])
         else:
-            dom = ta[3] + tb[3] + powr_axioms(ta[1], tb[1])
+            dom = ta[3] + tb[3]
+            ax = powr_axioms(ta[1], tb[1])
             cond = ta[1] != tb[1]
-        r, m = ctx.query(*dom, cond)
+        r, m = ctx.query_lazy(dom + [cond], ax)
         return {"unsat": "same", "sat": "differ", "unknown": "unknown"}[r], m
     assert env is not None
     try:
